@@ -421,11 +421,9 @@ func c07Case(run *ev.Run, reg *svc.Registry, handler *connect.Handler, _ string,
 	if kind == svc.ClientStream && len(h.body)%2 == 1 {
 		// a client-stream handler that polls Receive a few more times after it
 		// returned false (the stream keeps reporting its first error)
-		prog = &svc.Program{ReturnFirstRecvErr: true}
-		for i := 0; i < 6; i++ {
-			prog.Steps = append(prog.Steps, svc.Step{Op: "recv"})
-		}
-		prog.Steps = append(prog.Steps, svc.Step{Op: "sendsum"})
+		// (receive until the stream reports its end or an error, then three more
+		// times; the handler returns the first error it saw)
+		prog = &svc.Program{ReturnFirstRecvErr: true, Steps: []svc.Step{{Op: "recvall"}, {Op: "recv"}, {Op: "recv"}, {Op: "recv"}, {Op: "sendsum"}}}
 	} else if drains {
 		prog = &svc.Program{Steps: []svc.Step{{Op: "recvall"}, {Op: "sendsum"}}, StopOnRecvErr: true}
 	} else {
